@@ -233,6 +233,27 @@ def task_concrete():
         out.append(ob("%s:after-in-place-%s" % (fn2, label), fn2, FAILED if bad else PROVED, "B", "concrete", 0.0,
                       bad or "split() after curve.knotvector.%s in place: one Bezier piece per span of the CURRENT knot vector, equal to the curve" % label,
                       dict(kind="c07.concrete", which=label) if bad else None))
+    # (3) operands whose control points are of DIFFERENT number classes (ints on one side, Fractions / floats on the other): (A | B) is A on A's interval and B on B's
+    fn3 = "curves.BaseCurve.__or__"
+    kinds = {"int|Fraction": ([2, -1, 3], [F(3), F(1, 3), F(-7, 5)]), "Fraction|int": ([F(1, 2), F(-1, 3), F(3)], [3, 4, -2]), "int|float": ([2, -1, 3], [3.0, 0.25, -1.5]),
+             "int-vectors|Fraction-vectors": ([np.array([2, 1]), np.array([-1, 0]), np.array([3, 3])],
+                                              [np.array([F(3), F(3)], dtype=object), np.array([F(1, 3), F(2, 7)], dtype=object), np.array([F(-7, 5), F(1, 2)], dtype=object)])}
+    for label, (PA, PB) in kinds.items():
+        bad = None
+        try:
+            A = curves.Curve([F(0)] * 3 + [F(2)] * 3, list(PA))
+            B = curves.Curve([F(2)] * 3 + [F(5)] * 3, list(PB))
+            R = A | B
+            for u in (F(0), F(1, 2), F(7, 4), F(2), F(3), F(9, 2), F(5)):
+                exp = (A if u < 2 else B)(u)
+                got = R(u)
+                if np.shape(got) != np.shape(exp) or np.any(np.abs(np.array(got, dtype=float) - np.array(exp, dtype=float)) > 1e-12):
+                    bad = "(A|B)(%s) = %s, the operand gives %s" % (u, got, exp)
+                    break
+        except Exception as e:
+            bad = "%s: %s" % (type(e).__name__, str(e)[:100])
+        out.append(ob("%s:mixed-number-classes[%s]" % (fn3, label), fn3, FAILED if bad else PROVED, "B", "concrete", 0.0,
+                      bad or "the joined curve equals each operand on its interval", dict(kind="c07.concrete", which="classes:" + label, p=2) if bad else None))
     return out + [{"_stats": dict(cases=len(out))}]
 
 
@@ -246,7 +267,7 @@ def tasks(tier, seed):
 def replay(o):
     if (o.get("witness") or {}).get("kind") == "c07.concrete":
         w = o["witness"]
-        tag = "[p=%d]" % w["p"] if w["which"] == "kept" else "after-in-place-%s" % w["which"]
+        tag = "[p=%d]" % w["p"] if w["which"] == "kept" else ("mixed-number-classes[%s]" % w["which"][8:] if w["which"].startswith("classes:") else "after-in-place-%s" % w["which"])
         r = [x for x in task_concrete() if "id" in x and x["id"].endswith(tag)][0]
         return r["status"] == "failed", "knots away from the junction kept / pieces of the current knot vector", r["detail"]
     w = o["witness"]
